@@ -245,3 +245,75 @@ def rule_narrow_scratch(ctx: Ctx, prog: Program) -> None:
                         ctx.undecided_site("R-NARROW-SCRATCH", f"{m.relpath}:{ast.unparse(node)[:60]}",
                                            "narrow scratch dtype: holds positions bounded by the constraint's arity (contract: arity < 2^15)")
     ctx.extra["narrow_scratch_allocations"] = n
+
+
+# ------------------------------------------------------------------------------------------ R-CLAMP-ORDER
+def rule_clamp_order(ctx: Ctx, prog: Program) -> None:
+    """A filtering function that clamps a domain cell to the index range of a list (`i[MIN] = max(i[MIN], 0)`, `i[MAX] = min(i[MAX], len(l) - 1)`)
+    states that the cell may lie outside that range on entry.  Using the same cell as an index into that list *before* the clamp contradicts
+    that belief: for an index variable instantiated outside the list the access is out of bounds (compiled code has no bounds checks).  Rule:
+    in a function that contains such clamps at its top level, no subscript of the clamped list is indexed by the clamped cell(s) in a statement
+    that precedes the clamps."""
+    from .propagators import propagator_triples
+
+    ctx.rule("R-CLAMP-ORDER")
+    n_fn = 0
+    for _, fn, _ in propagator_triples(prog):
+        body = fn.node.body
+        clamps: List[Tuple[int, str, str]] = []  # (statement position in the body, row text of the clamped cell, list name)
+        for pos, st in enumerate(body):
+            if not (isinstance(st, ast.Assign) and len(st.targets) == 1 and isinstance(st.targets[0], ast.Subscript) and isinstance(st.value, ast.Call)
+                    and isinstance(st.value.func, ast.Name) and st.value.func.id in ("min", "max") and len(st.value.args) == 2):
+                continue
+            tgt = ast.unparse(st.targets[0])
+            args = [ast.unparse(a) for a in st.value.args]
+            if tgt not in args:
+                continue
+            other = st.value.args[1 - args.index(tgt)]
+            lst = None
+            if st.value.func.id == "min":
+                for n in ast.walk(other):
+                    if isinstance(n, ast.Call) and isinstance(n.func, ast.Name) and n.func.id == "len" and len(n.args) == 1 and isinstance(n.args[0], ast.Name):
+                        lst = n.args[0].id
+            row = ast.unparse(st.targets[0].value)  # `i` in i[MIN]
+            if lst or (st.value.func.id == "max" and isinstance(other, ast.Constant) and other.value == 0):
+                clamps.append((pos, row, lst or ""))
+        upper = [(p_, r_, l_) for p_, r_, l_ in clamps if l_]
+        if not upper:
+            continue
+        n_fn += 1
+        ctx.fn(fn.fq)
+        rows = {r_ for _, r_, _ in upper}
+        clamps = [c for c in clamps if c[1] in rows]
+        first = min(p_ for p_, _, _ in clamps)
+        lists = {l_ for _, _, l_ in upper}
+        bad = None
+        for st in body[:first]:
+            for n in ast.walk(st):
+                if isinstance(n, ast.Subscript) and isinstance(n.value, ast.Name) and n.value.id in lists:
+                    for x in ast.walk(n.slice):
+                        if isinstance(x, ast.Subscript) and ast.unparse(x.value) in rows:
+                            bad = (n, x)
+        # the cell may also reach the subscript through a local bound before the clamp (j = i[MIN]; l[j])
+        pre_locals = {}
+        for st in body[:first]:
+            for n in ast.walk(st):
+                if isinstance(n, ast.Assign) and len(n.targets) == 1 and isinstance(n.targets[0], ast.Name) \
+                        and any(isinstance(x, ast.Subscript) and ast.unparse(x.value) in rows for x in ast.walk(n.value)):
+                    pre_locals[n.targets[0].id] = n
+        for st in body:
+            for n in ast.walk(st):
+                if isinstance(n, ast.Subscript) and isinstance(n.value, ast.Name) and n.value.id in lists and bad is None:
+                    for x in ast.walk(n.slice):
+                        if isinstance(x, ast.Name) and x.id in pre_locals:
+                            bad = (n, x)
+        if bad is None:
+            ctx.ok("R-CLAMP-ORDER", f"{fn.name}: the clamped index cell(s) {sorted(rows)} are not used as an index of {sorted(lists)} before the clamp",
+                   sample={"clamps": len(clamps)})
+        else:
+            n, x = bad
+            ctx.violation("R-CLAMP-ORDER", fn.path, fn.name, f"index-before-clamp:{ast.unparse(n.value)}", f"{fn.path}:{n.lineno}",
+                          f"{fn.name} clamps {sorted(rows)} to the index range of {sorted(lists)} (line {body[first].lineno}) -- the index variable may lie outside "
+                          f"it on entry -- but `{ast.unparse(n)}` uses `{ast.unparse(x)}` as an index before that clamp: with the index variable "
+                          "instantiated outside the list the access is out of bounds (no bounds check in compiled code)")
+    ctx.floor("R-CLAMP-ORDER:functions-with-clamps", n_fn, 3)
